@@ -441,6 +441,23 @@ theorem jwe_enc_applied_is_recorded (jwe cek : Json) (a : AlgRec) (j : Json)
 example : (encCekSetup (.obj [("protected", .obj [("enc", .str "A128GCM")])])
     (.obj [("kty", .str "oct"), ("k", .str "AAAAAAAAAAAAAAAAAAAAAA")])).isSome = true := by decide +kernel
 
+
+/-! ### the same two theorems without the JSON-layer hypothesis (headers that are `Json.Plain`) -/
+
+theorem jws_applied_is_recorded_plain (P : Prims) (s jwk : Json) (pay rnd : Bs) (e : Json)
+    (h : sigEntryObj P s jwk pay rnd = some e)
+    (hplain : ∀ a s1 p, findAlgSig s jwk = some (a, s1) → s1.get? "protected" = some (.obj p) → Json.Plain (.obj p)) :
+    ∃ a hdr f pre sv, jwsHdr e = some hdr ∧ optStr hdr "alg" = some (some a.name) ∧
+      findSign a.name = some a ∧ sigLeaf P a.name jwk = some f ∧ prefixOf e = some pre ∧
+      f (pre ++ pay) rnd = some sv ∧ e.get? "signature" = some (B64.enc sv) :=
+  jws_applied_is_recorded P s jwk pay rnd e h (fun a s1 p h1 h2 => loadDump_of_plain p (hplain a s1 p h1 h2))
+
+theorem jwe_enc_applied_is_recorded_plain (jwe cek : Json) (a : AlgRec) (j : Json)
+    (h : encCekSetup jwe cek = some (a, j))
+    (hplain : ∀ j0 p, encodeProtected j0 = some j → j0.get? "protected" = some (.obj p) → Json.Plain (.obj p)) :
+    NamesEnc j a.name ∧ findEncr a.name = some a :=
+  jwe_enc_applied_is_recorded jwe cek a j h (fun j0 p h1 h2 => loadDump_of_plain p (hplain j0 p h1 h2))
+
 /-- non-vacuity -/
 example : jwsHdr (.obj [("protected", .obj [("alg", .str "P")]), ("header", .obj [("alg", .str "H"), ("kid", .int 1)])])
     = some (.obj [("alg", .str "P"), ("kid", .int 1)]) := by rfl
